@@ -284,7 +284,15 @@ func c06Child() {
 	w.sinkFor = func(id int) zapcore.WriteSyncer {
 		f, err := os.OpenFile(filepath.Join(dir, fmt.Sprintf("leaf%d.log", id)), os.O_CREATE|os.O_WRONLY|os.O_APPEND, 0o644)
 		must(err)
-		return &zapcore.BufferedWriteSyncer{WS: f, Size: 256 << 10, FlushInterval: time.Hour}
+		b := &zapcore.BufferedWriteSyncer{WS: f, Size: 256 << 10, FlushInterval: time.Hour}
+		if (id+len(op.Fs))%3 == 0 {
+			// a buffered syncer that was used and STOPPED earlier (a deferred Stop that ran before the last message): the
+			// final entry is still buffered by Write and must still be flushed by the core's Sync before control is lost
+			_, err := b.Write([]byte("warmup\n"))
+			must(err)
+			must(b.Stop())
+		}
+		return b
 	}
 	lg := c06Logger(&op, w)
 	w.rec.out = os.Stdout // from here on every event is written through as it happens
